@@ -70,6 +70,22 @@ def build(flavour="mon", quiet=True):
     return binary
 
 
+def fakeclock():
+    """Compiles the LD_PRELOAD controlled-clock shim (fsv/native/fakeclock.c) and returns its path."""
+    src = os.path.join(VERIF, "fsv", "native", "fakeclock.c")
+    out = os.path.join(CACHE, "fakeclock.so")
+    os.makedirs(CACHE, exist_ok=True)
+    if not os.path.exists(out) or os.path.getmtime(out) < os.path.getmtime(src):
+        tmp = out + ".%d.tmp" % os.getpid()
+        p = subprocess.run(["gcc", "-shared", "-fPIC", "-O2", "-o", tmp, src, "-ldl"], stdout=subprocess.PIPE,
+                           stderr=subprocess.STDOUT, text=True)
+        if p.returncode != 0:
+            raise RuntimeError("cannot build the fake-clock shim: " + p.stdout[-500:])
+        os.replace(tmp, out)
+    return out
+
+
 if __name__ == "__main__":
+    print(fakeclock())
     for fl in (sys.argv[1:] or ["mon"]):
         print(build(fl, quiet=False))
